@@ -864,6 +864,9 @@ def do_wmsc(R, st, tileset):
                 txt = [fmt(v) for v in bb]
                 if None in txt or not all(gc.can_scale(v) for v in bb):
                     continue
+                if not (bb[0] < bb[2] and bb[1] < bb[3]):
+                    # a degenerate rectangle is rejected by the WMS request parser ('invalid bbox'), it never reaches the layer
+                    continue
                 url = ('/service?service=WMS&version=1.1.1&request=GetMap&layers=%s&styles=&srs=%s&bbox=%s&width=%d&height=%d'
                        '&format=%s&tiled=true' % (name, tileset['srs'], ','.join(txt), w, h, tileset['format']))
                 status, ctype, body, loads = get(R.app, R.obs, url)
